@@ -82,11 +82,13 @@ ASSGN2S = {"<start>": ["<stmt>"], "<stmt>": ["<assgn> ; <stmt>", "<assgn>"], "<a
 MARKUP = {"<start>": ["<doc>"], "<doc>": ["<!DOCTYPE html><body>", "<body>"], "<body>": ["<p><br /><body>", ""], "<p>": ["x", "<br />"]}
 # a recursive nonterminal that is re-entered along two routes (through unary chains)
 REENTRANT = {"<start>": ["<X>"], "<X>": ["<Y>", "<P>", "a"], "<Y>": ["<Z>"], "<Z>": ["<X>!", "z"], "<P>": ["(<X>)"]}
+# nullable only through a chain, the nullable symbols declared after their users
+NULLCHAIN = {"<start>": ["<a><q>"], "<q>": ["<a>z"], "<a>": ["<b><c>"], "<b>": ["", "x"], "<c>": ["", "y"]}
 SIBLING_OF = {"ASSGN2S": ("ASSGN2", "a := 1 ; b := a")}      # grammar -> (earlier grammar, an input of it)
 WIDE12 = {"<start>": ["<row>"], "<row>": ["<d>" * 12], "<d>": ["0", "1"]}
 
 GRAMMARS = {
-    "SHAREDALT": SHAREDALT, "PAIRS": PAIRS, "ASSGN2S": ASSGN2S, "WIDE12": WIDE12, "MARKUP": MARKUP, "REENTRANT": REENTRANT,
+    "SHAREDALT": SHAREDALT, "PAIRS": PAIRS, "ASSGN2S": ASSGN2S, "WIDE12": WIDE12, "MARKUP": MARKUP, "NULLCHAIN": NULLCHAIN, "REENTRANT": REENTRANT,
     "ASSGN": ASSGN, "ASSGN2": ASSGN2, "XMLISH": XMLISH, "NUM": NUM, "NULLABLE": NULLABLE,
     "AMBIG": AMBIG, "LEFTREC": LEFTREC, "RIGHTREC": RIGHTREC, "MULTICHAR": MULTICHAR,
     "CSVISH": CSVISH, "TWOSTART": TWOSTART, "LENGTHS": LENGTHS,
